@@ -45,6 +45,8 @@ func (s Step) String() string {
 		return fmt.Sprintf("write %q (%d bytes: %s)", s.Path, len(s.Data), preview(s.Data))
 	case "index":
 		return fmt.Sprintf("craft index with %d entries", len(s.Entries))
+	case "file2dir":
+		return fmt.Sprintf("replace file %q by a directory holding %q", s.Path, s.Args[0])
 	case "tz":
 		return fmt.Sprintf("tz %+d min", s.TZ)
 	default:
@@ -248,8 +250,9 @@ type Exec struct {
 	Cur *Obs
 	Sc  *Scenario
 
-	hostileMsgs bool
-	fullContent bool
+	hostileMsgs  bool
+	fullContent  bool
+	decorateArgs bool
 }
 
 func NewExec(p *Profile) *Exec {
@@ -292,6 +295,9 @@ func (e *Exec) Do(st Step) error {
 	// bookkeeping that every profile shares
 	for p := range c.Post.IdxMap {
 		e.H.EverStaged[p] = true
+	}
+	if st.Op == "file2dir" {
+		e.H.PathsEver[st.Path+"/"+st.Args[0]] = true
 	}
 	if st.Op == "write" {
 		e.H.PathsEver[st.Path] = true
@@ -338,6 +344,12 @@ func (e *Exec) apply(c *Ctx) error {
 		return b.WriteFile(st.Path, st.Data)
 	case "remove":
 		return b.Remove(st.Path)
+	case "file2dir":
+		// a (tracked) file is replaced by a directory holding one new file
+		if err := b.Remove(st.Path); err != nil {
+			return err
+		}
+		return b.WriteFile(st.Path+"/"+st.Args[0], st.Data)
 	case "rmdir":
 		return b.RemoveAll(st.Path)
 	case "touch":
